@@ -35,11 +35,13 @@ Dims == [
     wkeys  |-> {"ok", "missing", "garbage", "empty", "otherkeys"},
     \* the witness checkpoint of origin A (which is also the mirror's pending
     \* checkpoint): cosigned by the witness key, cosigned by a stranger only,
-    \* cut in half, stored under the hash of another origin
+    \* cut in half; wrongdir: intact, but the directory also holds a checkpoint
+    \* of origin A under the hash of another origin
     wcp    |-> {"ok", "resigned", "truncated", "wrongdir"},
     \* mirror/mirror.v0.json
     mkeys  |-> {"ok", "missing", "otherkeys"},
-    \* the mirror checkpoint of origin A
+    \* the mirror checkpoint of origin A (wrongdir: as above, a second mirrored
+    \* tree of origin A under the hash of another origin)
     mcp    |-> {"ok", "resigned", "truncated", "wrongdir"},
     \* the right-edge hash tile of the mirrored tree: intact, deleted, corrupted
     medge  |-> {"ok", "missing", "corrupt"},
@@ -140,7 +142,7 @@ WitCpErr(c) == c.wkeys = "otherkeys" \/ c.wcp # "ok"
 MirKeysErr(c) == c.mkeys = "missing" \/ WitKeysErr(c)          \* the mirror also loads the witness keys
 MirCpErr(c) ==
     \/ c.mkeys = "otherkeys" \/ c.mcp # "ok" \/ c.medge # "ok"
-    \/ WitCpErr(c)                                              \* pending checkpoint unreadable / unverifiable
+    \/ c.wkeys = "otherkeys" \/ c.wcp \in {"resigned", "truncated"}   \* pending checkpoint unverifiable
     \/ c.mpend = "ahead"
 
 ModelAnswer(s) ==
